@@ -39,7 +39,8 @@ def gen_cases(ctx):
         order = list(range(q))
         rng.shuffle(order)
         cases.append({"enz": enz["name"], "q": q, "elements": ch["elements"], "order": order,
-                      "calls": rng.choice([1, 2, 3]), "fail_first": q > 1 and rng.random() < 0.3})
+                      "calls": rng.choice([1, 2, 3]),
+                      "fail_first": rng.choice([None, None, "missing" if q > 1 else "bad-citation", "bad-citation"])})
     return cases
 
 
@@ -51,10 +52,24 @@ def run_product(case):
     q = case["q"]
     out = {"calls": []}
     pre = annot.cit_snapshot(ents)
-    if case.get("fail_first"):
+    if case.get("fail_first") == "missing":
         # a consecutive-calls history that starts with an assembly that cannot complete (one module left out)
         fobs, _ = implutil.observe_assembly(ents[q], [ents[i] for i in case["order"][1:]], id="prod", name="prod")
         out["failed_call"] = {"out": fobs.get("out"), "inputs_same": annot.cit_snapshot(ents) == pre}
+    elif case.get("fail_first") == "bad-citation":
+        # ... or with a call made while a citing feature also holds an index that is out of range; the mistake
+        # is corrected afterwards and the calls proceed
+        cited = [f for e in ents for f in e.record.features if f.qualifiers.get("citation")]
+        if cited:
+            f = cited[len(cited) // 2]
+            f.qualifiers["citation"].append("[99]")
+            before = annot.cit_snapshot(ents)
+            fobs, _ = implutil.observe_assembly(ents[q], [ents[i] for i in case["order"]], id="prod", name="prod")
+            out["failed_call"] = {"out": fobs.get("out") + ":" + str(fobs.get("exc")), "inputs_same": annot.cit_snapshot(ents) == before}
+            if f.qualifiers["citation"][-1] == "[99]":
+                f.qualifiers["citation"].pop()
+            else:
+                out["failed_call"]["inputs_same"] = False
     for _ in range(case["calls"]):
         obs, prod = implutil.observe_assembly(ents[q], [ents[i] for i in case["order"]], id="prod", name="prod")
         view = annot.product_view(prod) if prod is not None else None
@@ -172,7 +187,7 @@ def run(ctx):
         ctx.evaluations += 1
         ctx.count("calls:%d" % c["calls"])
         if c.get("fail_first"):
-            ctx.count("history:failed-call-first")
+            ctx.count("history:failed-call-first:" + c["fail_first"])
         ctx.count("chain:%d" % c["q"])
         kept_cited = sum(1 for e in c["elements"] for f in e["rec"]["features"] if f.get("kept") and f.get("cit"))
         ctx.count("kept-citing-features:%d" % min(kept_cited, 5))
